@@ -227,7 +227,9 @@ func fmtErrorSourceLineWithParser(p *syntax.Parser, cursorIdx int, withCursorMar
 	startIdx := cursorIdx
 	endIdx := startIdx
 	// append EOF to source to avoid index exceed exception
-	sourceT := append(p.GetSource(), 0)
+	// (on a copy: appending to the source itself would write into the spare capacity of
+	// the caller's slice)
+	sourceT := append(append(make([]rune, 0, len(p.GetSource())+1), p.GetSource()...), 0)
 	isLineBreak := func(ch rune) bool {
 		return ch == syntax.RuneCR || ch == syntax.RuneLF
 	}
